@@ -17,6 +17,8 @@ package rules
 //	         that is reachable from a connection's teardown (readLoop, writeLoop) is executed only
 //	         under the broker lock after the connection registered under that id was looked up and
 //	         found to be this connection / absent (for the un-registration: found disconnected).
+//	R-C16-5  (c16_status.go) a registered connection does not look disconnected: soundness side
+//	         condition of the `registered.disconnected()` guard that R-C16-3 accepts in removeClient.
 //	R-C16-4  admin delete disconnects (E1): the HTTP handler deletes the stored session of each
 //	         listed id; watchDelete hands every deleted key (value nil) — and only those — to
 //	         deleteSession and keeps watching; deleteSession closes the registered client.
@@ -101,6 +103,10 @@ type c16Env struct {
 	httpIDF     *types.Var // HTTPSession.SessionID
 
 	decls map[*types.Func]*ast.FuncDecl
+
+	// discRelied: R-C16-3 accepted `<registered>.disconnected()` as the guard of an un-registration
+	// (then R-C16-5 must hold for that acceptance to be sound)
+	discRelied bool
 }
 
 func c16NewEnv(c *core.Ctx) *c16Env {
@@ -304,6 +310,7 @@ func c16(c *core.Ctx) string {
 	c.Rule("R-C16-2", "resubscribe on connect: in handleConn the read loop is entered only after the session was set and the topics returned by that client's session.allSubscribes() were passed to topicMgr.subscribe under the connection's client id (or are known empty); processSubscribe records every accepted subscription in the session with the same topics/qoss; allSubscribes enumerates all of info.Topics without early exit")
 	c.Rule("R-C16-3", "identity-guarded teardown: every operation keyed by client id reachable from a connection's teardown (readLoop incl. its deferred function, writeLoop) - delete of the live session, delete of the stored session, topicMgr.unsubscribe, delete from Broker.clients - runs with the broker lock held since the connection registered under that id was looked up, and only if that lookup found this very connection or nothing (un-registration: found it disconnected)")
 	c.Rule("R-C16-4", "admin delete disconnects: httpDeleteSessionHandler deletes sessionStoreKey(SessionID) from the store for each listed session; newBroker and reconnectWatcher start watchDelete; watchDelete calls deleteSession for exactly the entries with nil value, with an id derived from the key, never leaves the batch loop early and only stops watching on broker shutdown or after starting reconnectWatcher; deleteSession closes the client registered under the id unless none is registered or it is already disconnected")
+	c.Rule("R-C16-5", "a registered connection does not look disconnected: when R-C16-3 accepts `registered.disconnected()` as the guard of an un-registration, the status of a connection (constant propagation over the Client literal, atomic Store/Swap/CompareAndSwap of statusFlag and Client methods, through the constructor chain into handleConn) must make disconnected() false at the store into Broker.clients, and between that store and the read loop only a closing method may make it true")
 	c.NotDecided = []string{
 		"the interleavings themselves (the rules check lock/identity discipline, not schedules)",
 		"that Client.close eventually ends the TCP connection (the read loop notices only at its next packet or keep-alive deadline)",
@@ -322,6 +329,7 @@ func c16(c *core.Ctx) string {
 	c16Resubscribe(env)
 	c16Teardown(env)
 	c16AdminDelete(env)
+	c16Status(env)
 	return "Static shape rules on the MQTT session life cycle: the complete decision table of setSession over (connect.CleanSession, prev==nil, prev.cleanSession()) is extracted path-sensitively and compared with the table the property states; handleConn enters the read loop only with the session set and its topics resubscribed under the connection's id; every client-id-keyed operation statically reachable from a connection's teardown is required to be guarded, under the broker lock, by a test that the connection registered under the id is still this one (otherwise a superseded connection's teardown destroys the new connection's session, stored copy, subscriptions or registration); the admin path store.delete → watchDelete → deleteSession → Client.close is connected for deleted keys only. Not decided: interleavings, timing of the actual socket close, asynchronous store ordering."
 }
 
@@ -823,6 +831,7 @@ type c16Guards struct {
 	absentF    []string // facts whose falsity means "nothing registered" (v:<ok>)
 	discKeys   []string // <reg>.disconnected() call facts
 	unresolved bool     // comparisons on the registry the analysis does not classify
+	discRelied bool     // some state was accepted only because <reg>.disconnected() is true
 }
 
 const c16Locked, c16Fresh = "ev:c16brokerLocked", "ev:c16lookupFresh"
@@ -961,9 +970,12 @@ func (g *c16Guards) at(call *ast.CallExpr, kind string) (how string, bad *flow.S
 		for _, k := range g.absentF {
 			fact = fact || st.Is(k, flow.False)
 		}
-		if kind == c16OpUnreg {
+		if kind == c16OpUnreg && !fact {
 			for _, k := range g.discKeys {
-				fact = fact || st.Is(k, flow.True)
+				if st.Is(k, flow.True) {
+					fact = true
+					g.discRelied = true
+				}
 			}
 		}
 		switch {
@@ -1009,6 +1021,9 @@ func (w *c16Walker) visit(f *flow.Func, name, upstream, chain string, depth int)
 			g = w.guards(f)
 		}
 		how, bad, why := g.at(call, kind)
+		if g.discRelied {
+			w.e.discRelied = true
+		}
 		if how == "" && g.unresolved {
 			w.e.c.Undecide("R-C16-3", name+"|registry comparison", pos(w.e.c, call), "the function compares Broker.clients[...] / getClient(...) directly; the guard analysis only classifies comparisons through a variable")
 		}
